@@ -93,6 +93,15 @@ def op_bf_set(a):
             f.value = v0
         else:
             f = UnsignedByteField(v0, a["w"])
+        many = None
+        if (a["w"] * 7 + sum(a["v0"]) + len(a["octets"])) % 8 == 5 and a["w"] > 0:
+            # a long-lived field: its hash is taken, then it is re-assigned exactly 256 (or 65 536) times, the last assignment
+            # being the one under test; afterwards it must hash like a fresh field of the same (value, width)
+            many = 65536 if sum(a["v0"]) % 2 else 256
+            hash(f)
+            for i in range(many - 2):
+                f.value = (v0 + 1 + i) % (1 << (8 * a["w"]))
+            f.value = v0                              # (back at the starting value: a refusal must leave exactly that)
         try:
             if a["by"] == "int":
                 f.value = to_int(a["x"])
@@ -107,6 +116,8 @@ def op_bf_set(a):
         out = {"views": views(f)}
         if not own:
             out["equals_own_octets"] = False
+        if many and hash(f) != hash(UnsignedByteField(int(f), len(f))):
+            out["hash_after_%d_assignments" % many] = "differs from a fresh field's"
         return out
     return outcome(run)
 
